@@ -53,8 +53,13 @@ func chooseScript(x *explore.X, who string, maxSegs int, salt byte) script {
 	return s
 }
 
-func scenario(x *explore.X, maxSegs int) {
+func scenario(x *explore.X, maxSegs int, withBackPressure bool) {
 	routing := x.ChooseFree("routing", len(routings))
+	// back-pressure: one endpoint stops reading (4 KiB socket buffer) until a "resume" event
+	bp := 0
+	if withBackPressure {
+		bp = 1 + x.ChooseFree("stalled-reader", 2) // 1 target, 2 client
+	}
 	cs := chooseScript(x, "client", maxSegs, 1)
 	ts := chooseScript(x, "target", maxSegs, 11)
 
@@ -189,12 +194,45 @@ func scenario(x *explore.X, maxSegs int) {
 	}
 	var cl endpoint = &offset{endpoint: clRaw, skip: len(rs.Msgs[0].Raw)}
 
+	var holder *world.Peer
+	switch bp {
+	case 1:
+		if routings[routing] == "upstream-https" {
+			bp = 0 // the TLS endpoint reads through a pump goroutine; back-pressure is applied on plain routings
+		} else {
+			holder = hopRaw
+		}
+	case 2:
+		holder = clRaw
+	}
+	if holder != nil {
+		holder.Recv()
+		holder.Hold = true
+		holder.C.SetLimit(4096)
+	}
 	// ---- explore all interleavings of the remaining script events ------------------------------
 	cFin, tFin := false, false
 	hist := fmt.Sprintf("%s|c%v|t%v|", routings[routing], lens(cs), lens(ts))
 	check := func(ev string) bool {
 		x.Check()
 		gotT, gotC := tg.Recv(), cl.Recv()
+		if holder != nil && holder.Hold {
+			// the stalled reader has not taken what is in flight: towards it only "nothing invented" can be checked
+			// now (full comparison after it resumes); the opposite direction must be unaffected
+			if bp == 1 {
+				if !bytes.HasPrefix(sentC, gotT) {
+					x.Failf("transparency/client-to-target", "after %s: target holds bytes the client never sent (%s)", ev, diff(gotT, sentC))
+					return false
+				}
+				gotT = sentC
+			} else {
+				if !bytes.HasPrefix(sentT, gotC) {
+					x.Failf("transparency/target-to-client", "after %s: client holds bytes the target never sent (%s)", ev, diff(gotC, sentT))
+					return false
+				}
+				gotC = sentT
+			}
+		}
 		if !bytes.Equal(gotT, sentC) {
 			x.Failf("transparency/client-to-target", "after %s: target holds %d bytes, client has sent %d (%s)", ev, len(gotT), len(sentC), diff(gotT, sentC))
 			return false
@@ -202,6 +240,9 @@ func scenario(x *explore.X, maxSegs int) {
 		if !bytes.Equal(gotC, sentT) {
 			x.Failf("transparency/target-to-client", "after %s: client holds %d bytes, target has sent %d (%s)", ev, len(gotC), len(sentT), diff(gotC, sentT))
 			return false
+		}
+		if holder != nil && holder.Hold {
+			return true // EOF visibility and socket release are checked once the stalled reader has resumed
 		}
 		if tg.SawEOF() != cFin {
 			x.Failf("half-close/target-eof", "after %s: target observes EOF=%v but client FIN=%v", ev, tg.SawEOF(), cFin)
@@ -222,7 +263,7 @@ func scenario(x *explore.X, maxSegs int) {
 		finish(x, w, clRaw, hopRaw)
 		return
 	}
-	for !(cFin && tFin) {
+	for !(cFin && tFin) || (holder != nil && holder.Hold) {
 		var enabled []string
 		if !cFin {
 			enabled = append(enabled, "client")
@@ -230,10 +271,18 @@ func scenario(x *explore.X, maxSegs int) {
 		if !tFin {
 			enabled = append(enabled, "target")
 		}
+		if holder != nil && holder.Hold {
+			enabled = append(enabled, "resume")
+		}
 		x.State(hist, 0)
 		side := enabled[x.ChooseFree("next", len(enabled))]
 		var ev string
-		if side == "client" {
+		if side == "resume" {
+			holder.Hold = false
+			holder.C.SetLimit(0)
+			world.Settle(0)
+			ev = "stalled reader resumes"
+		} else if side == "client" {
 			if cNext < len(cs.segs) {
 				cl.Send(cs.segs[cNext])
 				sentC = append(sentC, cs.segs[cNext]...)
@@ -313,12 +362,14 @@ func finish(x *explore.X, w *world.World, peers ...*world.Peer) {
 
 func TestC03(t *testing.T) {
 	s := explore.NewSuite(t, "C03", "model_checking",
-		"routing(6: direct, upstream http, upstream https, upstream socks5, custom connect function, HTTP/1.1 Upgrade) [full product] x client script and target script (1-2 quick / 1-3 thorough segments of sizes {5,0,1,4096,32768,32769,1MiB+1}, first segment optionally coalesced with the request head resp. with the far side's own reply) [deviation-bounded, D=2 quick / 3 thorough] x ALL interleavings of the two scripts' events (segment, ..., FIN) [full]; a state is a quiescent event history; at every state both directions are compared byte for byte, EOF visibility is compared with the sender's FIN, and socket release with 'both directions finished'; non-trivial = at least one state was checked")
+		"routing(6: direct, upstream http, upstream https, upstream socks5, custom connect function, HTTP/1.1 Upgrade) [full product] x client script and target script (1-2 quick / 1-3 thorough segments of sizes {5,0,1,4096,32768,32769,1MiB+1}, first segment optionally coalesced with the request head resp. with the far side's own reply) [deviation-bounded, D=2 quick / 3 thorough] x ALL interleavings of the two scripts' events (segment, ..., FIN) [full]; a back-pressure family in which one endpoint stops reading (4 KiB socket buffer) and resumes at every possible point of the interleaving, the opposite direction being checked exactly meanwhile; a state is a quiescent event history; at every state both directions are compared byte for byte, EOF visibility is compared with the sender's FIN, and socket release with 'both directions finished'; non-trivial = at least one state was checked")
 	s.Assume = []string{"simnet models TCP half-close (FIN) and release", "virtual time is not advanced inside a tunnel, so the 60 s forced-close grace period of bicopy never expires (not part of the statement)", "crypto/tls close_notify is the half-close of the HTTPS-proxy routing"}
 	for _, tier := range []string{"quick", "thorough"} {
 		segs := map[string]int{"quick": 2, "thorough": 3}[tier]
 		s.Add(explore.Scenario{Name: "tunnel-" + tier, Remote: true, Tiers: []string{tier}, MaxDev: map[string]int{"quick": 2, "thorough": 3},
-			Run: func(x *explore.X) { world.Run(t, x, func() { scenario(x, segs) }) }})
+			Run: func(x *explore.X) { world.Run(t, x, func() { scenario(x, segs, false) }) }})
+		s.Add(explore.Scenario{Name: "back-pressure-" + tier, Remote: true, Tiers: []string{tier}, MaxDev: map[string]int{"quick": 1, "thorough": 2},
+			Run: func(x *explore.X) { world.Run(t, x, func() { scenario(x, 2, true) }) }})
 	}
 	s.Main()
 }
